@@ -15,6 +15,16 @@
   `configvarsAlias` are the pre-repair code (DESIGN §5 F4); `aliasing_counterexample_pre_fix`
   shows every theorem below fails for them.
 
+  Section 6: decorator inputs of the definition that are COPIED BY FORMATTING before use (foreach
+  items, onError): operation `fmtSetAt … keep`, where `keep` = the objects a formatter hands back as
+  they are instead of rebuilding them; the code as it is rebuilds every container, also an empty one
+  (`keep = []`, part of the fixed language), `formatter_returns_container_counterexample` shows what
+  one kept container does.  Section 7: runs that are over are never touched again
+  (`finished_run_unchanged`), and `pypyr.pipeline.Pipeline` objects that are run again
+  (`RunHeap.PipeObj`, `callsSched`): with a `StepsRunner` per call the object carries nothing from
+  one call to the next (`calls_perCall`, `reused_object_same_as_fresh`, `reused_object_rerun_same`);
+  `runner_kept_counterexample`: a runner kept on the object breaks it.
+
   Not claimed here (model limits): interleavings below operation granularity, module-level state
   outside definitions/config (step/parser/backoff caches hold code objects, not data).
 -/
@@ -317,5 +327,169 @@ theorem aliasing_breaks_sep : ¬ Sep (exec (solo 1 oldOps) exH) := by
   intro hS
   have := hS (.run 1) (.dict [("lst", ⟨.defn 0, 1⟩)]) (by decide +kernel) ⟨.defn 0, 1⟩ (by decide)
   cases this
+
+/-! ### 6. decorator inputs are copied by formatting before use
+
+  `Step.foreach_loop` binds `context['i']` to an item of
+  `context.get_formatted_value(self.foreach_items)`, `Step.save_error` stores the formatted `onError`
+  value under `context['runErrors']`: operation `fmtSetAt path k src keep` of the model.  A formatter
+  REBUILDS an object or RETURNS IT AS IT IS (`keep`, see `RunHeap.shiftKeep`); the code as it is
+  rebuilds every container, also an empty one (`keep = []`), and is then part of the fixed operation
+  language: every theorem above covers it.  -/
+
+/-- Formatting a (brace-free) definition object with a formatter that rebuilds every container IS a
+    deep copy: binding a formatted item under `key` has exactly the effect of the `in` deep copy. -/
+theorem fmt_rebuild_is_deep_copy (h : Heap) (r : Nat) (key : String) (src : Ref) :
+    effect h r (.fmtSetAt [] key src []) = effect h r (.inCopy key src) := by
+  simp only [effect, resolve, fmtArena_nil, shiftKeep_nil]
+  split
+  · rename_i hg
+    cases hc : h.get? (root r) with
+    | none => rfl
+    | some c =>
+      cases c with
+      | leaf v => rfl
+      | list rs => rfl
+      | dict kvs => simp only [shiftRef_reg]
+  · rfl
+
+/-- Definition 0 is a step with `foreach: [{name: web, done: []}]`: cell 0 the foreach list, cell 1
+    the item, cell 2 the atom, cell 3 the EMPTY list. -/
+def fmDefs : List Block := [[.list [1], .dict [("name", 2), ("done", 3)], .leaf (.str "web"), .list []]]
+def fmH : Heap := Heap.init fmDefs [.dict []]
+
+/-- one run: `i` bound to the formatted item, the step body fills `i['done']` in place
+    (`pypyr.steps.contextmerge` extends lists in place, `py`: `i['done'].append(…)`) -/
+def fmOps (keep : List Nat) : List Op :=
+  [.start [.dict []], .fmtSetAt [] "i" ⟨.defn 0, 1⟩ keep,
+   .appendAt [.key "i", .key "done"] [.leaf (.str "checked")]]
+
+example : SchedFixed (solo 1 (fmOps []) ++ solo 2 (fmOps [])) := by decide
+
+example : Sep (exec (solo 1 (fmOps []) ++ solo 2 (fmOps [])) fmH) :=
+  sep_invariant (s := solo 1 (fmOps []) ++ solo 2 (fmOps [])) (h := fmH) (by decide) (sep_init _ _)
+
+example : (exec (solo 1 (fmOps []) ++ solo 2 (fmOps [])) fmH).arena (.defn 0) = fmH.arena (.defn 0) :=
+  defs_unchanged (s := solo 1 (fmOps []) ++ solo 2 (fmOps [])) (h := fmH) (by decide) (sep_init _ _) (.defn 0) rfl
+
+/-- `formatter_returns_container_counterexample`: a formatter that hands ONE container back as it is
+    (here the empty list, cell 3: "nothing to format in there") breaks every statement above: the
+    definition object is reachable from the context, the step body changes the cached definition
+    (`done: []` becomes `[checked]`, then `[checked, checked]`), the second run's context differs
+    from the first's.  With the formatter as it is (`keep = []`) none of that happens. -/
+theorem formatter_returns_container_counterexample :
+    foreignReach 20 (exec (solo 1 (fmOps [3])) fmH) 1 = [⟨.defn 0, 3⟩] ∧
+    (exec (solo 1 (fmOps [3])) fmH).arena (.defn 0) ≠ fmH.arena (.defn 0) ∧
+    deepVal 5 fmH ⟨.defn 0, 1⟩ = .dict [(.str "name", .str "web"), (.str "done", .list [])] ∧
+    deepVal 5 (exec (solo 1 (fmOps [3])) fmH) ⟨.defn 0, 1⟩ =
+      .dict [(.str "name", .str "web"), (.str "done", .list [.str "checked"])] ∧
+    deepVal 5 (exec (solo 1 (fmOps [3]) ++ solo 2 (fmOps [3])) fmH) (root 2) ≠
+      deepVal 5 (exec (solo 1 (fmOps [3])) fmH) (root 1) ∧
+    -- the formatter as it is
+    foreignReach 20 (exec (solo 1 (fmOps [])) fmH) 1 = [] ∧
+    (exec (solo 1 (fmOps []) ++ solo 2 (fmOps [])) fmH).arena (.defn 0) = fmH.arena (.defn 0) ∧
+    deepVal 5 (exec (solo 1 (fmOps []) ++ solo 2 (fmOps [])) fmH) (root 2) =
+      deepVal 5 (exec (solo 1 (fmOps [])) fmH) (root 1) ∧
+    deepVal 5 (exec (solo 1 (fmOps [])) fmH) (root 1) =
+      .dict [(.str "i", .dict [(.str "name", .str "web"), (.str "done", .list [.str "checked"])])] := by
+  decide +kernel
+
+/-! ### 7. a run that is over is left alone; objects that outlive a run
+
+  A `pypyr.pipeline.Pipeline` object can be run again (`obj.run(context)` with another `Context`).
+  What the object keeps between two calls is `steps_runner` (`RunHeap.PipeObj`); the code as it is
+  builds a new `StepsRunner` for the context of every call (`RunnerRule.perCall`), so the operations
+  of a call act on the context handed to THAT call whatever the object went through before. -/
+
+theorem exec_append (s1 s2 : Sched) (h : Heap) : exec (s1 ++ s2) h = exec s2 (exec s1 h) := by
+  induction s1 generalizing h with
+  | nil => rfl
+  | cons e rest ih => exact ih _
+
+/-- `finished_run_unchanged`: whatever runs after run r's last operation – the same pipeline again,
+    other pipelines, any number of runs, interleaved in any way – leaves every object of run r,
+    hence its final context, exactly as it was. -/
+theorem finished_run_unchanged {s1 s2 : Sched} (hs : SchedFixed (s1 ++ s2)) {h : Heap} (hS : Sep h)
+    (r : Nat) (hp : proj r s2 = []) :
+    (exec (s1 ++ s2) h).arena (.run r) = (exec s1 h).arena (.run r) := by
+  have h1 : SchedFixed s1 := fun e he => hs e (List.mem_append_left _ he)
+  have h2 : SchedFixed s2 := fun e he => hs e (List.mem_append_right _ he)
+  rw [exec_append, interleaving_commutes h2 (exec_sep h1 hS) r, hp]
+  rfl
+
+theorem finished_run_same_context {s1 s2 : Sched} (hs : SchedFixed (s1 ++ s2)) {h : Heap} (hS : Sep h)
+    (r : Nat) (hp : proj r s2 = []) (n : Nat) :
+    deepVal n (exec (s1 ++ s2) h) (root r) = deepVal n (exec s1 h) (root r) :=
+  deepVal_region (exec_sep (fun e he => hs e (List.mem_append_left _ he)) hS)
+    (finished_run_unchanged hs hS r hp) n rfl
+
+example : (exec (solo 1 exOps ++ solo 2 exOps) exH).arena (.run 1) = (exec (solo 1 exOps) exH).arena (.run 1) :=
+  finished_run_unchanged (s1 := solo 1 exOps) (s2 := solo 2 exOps) (h := exH) (by decide) (sep_init _ _) 1
+    (by decide)
+
+/-- `calls_perCall`: with a `StepsRunner` per call, a history of calls – on one object, on several,
+    in whatever state those objects are – performs, call after call, the operations of that call on
+    the context handed to that call. -/
+theorem calls_perCall (objs : Objs) (cs : List Call) :
+    callsSched .perCall objs cs = cs.flatMap fun c => c.sched c.run := by
+  induction cs generalizing objs with
+  | nil => rfl
+  | cons c rest ih => simp only [callsSched, PipeObj.call, List.flatMap_cons, ih]
+
+/-- …so running an object again is running a fresh object: the operations are the same as when
+    every call gets a `Pipeline` object of its own that has never run. -/
+theorem reused_object_same_as_fresh (objs : Objs) (cs : List Call) :
+    callsSched .perCall objs cs = callsSched .perCall Objs.fresh (cs.map fun c => { c with obj := c.run }) := by
+  rw [calls_perCall, calls_perCall, List.flatMap_map]
+  rfl
+
+def exPre : List Op := [.start [.dict [("log", 1)], .list []]]
+def exSteps : List (Option Nat × Op) := [(none, .appendAt [.key "log"] [.leaf (.str "tallied")])]
+
+/-- object 0 is called for runs 1, 2 and 3 with the same program -/
+def exCalls : List Call := [⟨0, 1, exPre, exSteps⟩, ⟨0, 2, exPre, exSteps⟩, ⟨0, 3, exPre, exSteps⟩]
+
+example : callsSched .perCall Objs.fresh exCalls =
+    callsSched .perCall Objs.fresh [⟨1, 1, exPre, exSteps⟩, ⟨2, 2, exPre, exSteps⟩, ⟨3, 3, exPre, exSteps⟩] :=
+  reused_object_same_as_fresh Objs.fresh exCalls
+
+/-- `reused_object_rerun_same`: after ANY history of calls `cs` (any objects, any object states)
+    that contained the call `c1` on a context of its own, one more call `c2` – on any object, for
+    instance the one `c1` used – with the same program `ops` on a new context ends with the context
+    `c1` ends with when it is the only run of the process.  (Calls without nested child runs: the
+    operations of `c1` and `c2` are `ops` on their own context.) -/
+theorem reused_object_rerun_same (defs : List Block) (cfg : Block) (objs : Objs) (cs : List Call) (c1 c2 : Call)
+    {ops : List Op} (hfix : SchedFixed (callsSched .perCall objs cs)) (hops : ∀ o ∈ ops, o.fixed = true)
+    (hc1 : c1.sched c1.run = solo c1.run ops) (hc2 : c2.sched c2.run = solo c2.run ops)
+    (hp1 : proj c1.run (callsSched .perCall objs cs) = solo c1.run ops)
+    (hp2 : proj c2.run (callsSched .perCall objs cs) = []) (n : Nat) :
+    deepVal n (exec (callsSched .perCall objs (cs ++ [c2])) (Heap.init defs cfg)) (root c2.run) =
+      deepVal n (exec (c1.sched c1.run) (Heap.init defs cfg)) (root c1.run) := by
+  have happ : callsSched .perCall objs (cs ++ [c2]) = callsSched .perCall objs cs ++ solo c2.run ops := by
+    simp only [calls_perCall, List.flatMap_append, List.flatMap_cons, List.flatMap_nil, List.append_nil, hc2]
+  rw [happ, hc1]
+  exact rerun_after_history defs cfg hfix hops hp1 hp2 n
+
+example : deepVal 5 (exec (callsSched .perCall Objs.fresh exCalls) (Heap.init [] [.dict []])) (root 3) =
+    deepVal 5 (exec ((⟨0, 1, exPre, exSteps⟩ : Call).sched 1) (Heap.init [] [.dict []])) (root 1) :=
+  reused_object_rerun_same [] [.dict []] Objs.fresh (exCalls.take 2) ⟨0, 1, exPre, exSteps⟩ ⟨0, 3, exPre, exSteps⟩
+    (ops := exPre ++ exSteps.map (·.2)) (by decide) (by decide) (by decide) (by decide) (by decide) (by decide) 5
+
+/-- `runner_kept_counterexample`: a `Pipeline` object that keeps its first `StepsRunner`
+    (`RunnerRule.keepFirst`) runs the steps of the later calls on the FIRST call's context: run 1's
+    objects change after run 1 is over, runs 2 and 3 leave the context they were given as it was,
+    and run 3 – same program, equal initial context – does not end like run 1.  With a runner per
+    call (the code as it is) none of that happens. -/
+theorem runner_kept_counterexample :
+    let h0 := Heap.init [] [.dict []]
+    let one := callsSched .keepFirst Objs.fresh (exCalls.take 1)
+    let all := callsSched .keepFirst Objs.fresh exCalls
+    deepVal 5 (exec one h0) (root 1) = .dict [(.str "log", .list [.str "tallied"])] ∧
+    deepVal 5 (exec all h0) (root 1) = .dict [(.str "log", .list [.str "tallied", .str "tallied", .str "tallied"])] ∧
+    deepVal 5 (exec all h0) (root 3) = .dict [(.str "log", .list [])] ∧
+    -- a runner per call
+    deepVal 5 (exec (callsSched .perCall Objs.fresh exCalls) h0) (root 1) = .dict [(.str "log", .list [.str "tallied"])] ∧
+    deepVal 5 (exec (callsSched .perCall Objs.fresh exCalls) h0) (root 3) = .dict [(.str "log", .list [.str "tallied"])] := by
+  decide +kernel
 
 end Pypyr.C12
